@@ -294,6 +294,74 @@ def stress_session(rep, seed, sched_seed, rounds):
     return seen, distinct, n
 
 
+def inflight_session(rep, seed, sched_seed, delay):
+    """a workspace diagnostic is in flight (client without pull diagnostics; the answer to its
+    window/workDoneProgress/create is delayed) while didOpen/didChange arrive; a hover must still be answered.
+    Catches a driver that keeps a lock while it waits for its per-file tasks / for the client."""
+    files = {"a.lua": LUA_A, "b.lua": LUA_B}
+    files.update({f"m{i}.lua": f"local m{i} = undefined_{i}\nreturn m{i}\n" for i in range(12)})
+    ws = make_workspace(files, emmyrc={"diagnostics": {"diagnosticInterval": 50}})
+    trace = os.path.join(ws, ".verif-trace.tsv")
+    desc = {"kind": "session", "session": "inflight", "seed": seed, "sched_seed": sched_seed, "delay": delay}
+    s = Server(ws, sched_seed=sched_seed, sched_max_ms=3, trace=trace)
+    # token 1 = ProgressTask::DiagnoseWorkspace
+    s.hold = lambda m: m.get("method") == "window/workDoneProgress/create" and (m.get("params") or {}).get("token") == 1
+    failed = None
+    try:
+        if s.initialize(work_done_progress=True) is None:
+            rep.oracle_failure({"class": "hang", "what": "no initialize result", "input": desc})
+            return set(), set(), 0
+        got = s.wait_held(1, 60.0)
+        ua = path_uri(os.path.join(ws, "a.lua"))
+        s.notify("textDocument/didOpen", {"textDocument": {"uri": ua, "languageId": "lua", "version": 1, "text": LUA_A}})
+        s.notify("textDocument/didChange", {"textDocument": {"uri": ua, "version": 2}, "contentChanges": [{"text": LUA_A + "\nlocal z = 1\n"}]})
+        time.sleep(delay)
+        s.release_held()
+        s.notify("textDocument/didChange", {"textDocument": {"uri": ua, "version": 3}, "contentChanges": [{"text": LUA_A + "\nlocal z = 2\n"}]})
+        r = s.request("textDocument/hover", {"textDocument": {"uri": ua}, "position": {"line": 11, "character": 7}}, 25.0)
+        rep.d["evaluations"] += 4
+        rep.count("inflight_progress_request_seen" if got else "inflight_progress_request_not_seen")
+        if r is None:
+            failed = "hover unanswered for 25 s after didOpen/didChange arrived while the workspace diagnostic was in flight"
+        else:
+            s.settle(0.5, 15.0)
+            if not any(u == ua for _, u, _ in s.diags):
+                failed = "no diagnostics were ever published for the opened document after the in-flight workspace diagnostic"
+    finally:
+        s.close()
+    if failed:
+        rep.oracle_failure({"class": "hang", "what": failed, "input": desc})
+    evs = read_trace(trace)
+    out = analyse_trace(evs, rep, desc)
+    shutil.rmtree(ws, ignore_errors=True)
+    return out
+
+
+def awaits_check(rep):
+    """T-src table of non-lock awaits under a guard: every entry must be allowed; for an entry that is not, the
+    3-task instance (waiter holding the lock, awaited child needing it, a writer / a holder of the needed lock)
+    is searched in the model for the deadlocking schedule (concrete failing input)."""
+    data, rk, _ = load_sites()
+    nl = len(data["rank"])
+    bad = [a for a in data.get("awaits", []) if a["held"] and not a["bounded"]
+           and not all(rk[h] < rk[l] for l in a["needs"] for h in a["held"])]
+    rep.count("awaits_under_lock", len(data.get("awaits", [])))
+    rep.count("awaits_without_lock", data.get("awaits_without_lock", 0))
+    for a in bad:
+        h, l = next((h, l) for l in a["needs"] for h in a["held"] if rk[h] >= rk[l])
+        if h == l:
+            progs = [f"a{rk[l]}w,r{rk[l]}", f"a{rk[h]}r,w2,r{rk[h]}", f"a{rk[l]}r,r{rk[l]}"]
+        else:
+            progs = [f"a{rk[l]}w,a{rk[h]}w,r{rk[h]},r{rk[l]}", f"a{rk[h]}r,w2,r{rk[h]}", f"a{rk[l]}r,r{rk[l]}"]
+        out = run_driver([f"locks.search {nl} 200000 " + " ".join(progs), "locks.disciplinedset " + " ".join(progs)])
+        rep.d["evaluations"] += 2
+        rep.oracle_failure({"class": a["fn"], "what": f"{a['file']}:{a['line']} [{a['fn']}] awaits ({a['kind']}: `{a['expr']}`) while holding {a['held']}; "
+                            f"the awaited party may still request {a['needs']} (not all above what is held, no time bound). "
+                            f"Model instance writer/waiter/child: {out[0]} ({out[1]})",
+                            "input": {"kind": "schedule", "await": a, "programs": progs, "result": out[0], "nl": nl}})
+    return len(bad)
+
+
 def model_search(rep, thorough):
     """model side of the search: (1) if the extracted table has an out-of-order site, search the extracted
     programs for a deadlocking schedule (concrete failing input); (2) sanity: the exhaustive exploration of
@@ -352,6 +420,17 @@ def model_search(rep, thorough):
 
 def replay_c28(rep, rp):
     inp = rp.get("input") or {}
+    if inp.get("kind") == "schedule" and inp.get("await"):
+        data, rk, _ = load_sites()
+        a0 = inp["await"]
+        still = [a for a in data.get("awaits", []) if (a["file"], a["fn"], a["kind"]) == (a0["file"], a0["fn"], a0["kind"]) and a["held"]
+                 and not a["bounded"] and not all(rk[h] < rk[l] for l in a["needs"] for h in a["held"])]
+        out = run_driver([f"locks.search {inp.get('nl', 7)} 200000 " + " ".join(inp["programs"])])
+        rep.d["evaluations"] += 1
+        if still and out[0].startswith("ok deadlock"):
+            rep.oracle_failure({"class": a0["fn"], "what": "replay: the await is still made under the lock and the model instance still deadlocks: " + out[0], "input": inp})
+        rep.d["notes"].append(f"replay: await still present: {len(still)}; model: {out[0]}")
+        return
     if inp.get("kind") == "schedule" and inp.get("programs"):
         res = inp.get("result", "")
         sched = res.split("schedule=")[1] if "schedule=" in res else "-"
@@ -366,6 +445,8 @@ def replay_c28(rep, rp):
     else:
         if inp.get("session") == "stress":
             stress_session(rep, inp.get("seed", 1), inp.get("sched_seed", 1), inp.get("rounds", 6))
+        elif inp.get("session") == "inflight":
+            inflight_session(rep, inp.get("seed", 1), inp.get("sched_seed"), inp.get("delay", 0.4))
         else:
             coverage_session(rep, inp.get("seed", 1), inp.get("sched_seed"), False)
 
@@ -380,12 +461,16 @@ def run_c28(a, rep):
         return
     data, rk, sites = load_sites()
     seen, distinct, nev = set(), set(), 0
-    sessions = [("coverage", None)] + [("stress", a["seed"] * 100 + i) for i in range(8 if thorough else 2)]
+    sessions = [("coverage", None), ("inflight", None)] + [("stress", a["seed"] * 100 + i) for i in range(8 if thorough else 2)]
     if thorough:
         sessions.insert(1, ("coverage", a["seed"] * 100 + 50))
+        sessions += [("inflight", a["seed"] * 100 + 70 + i) for i in range(3)]
+    awaits_check(rep)
     for kind, ss in sessions:
         if kind == "coverage":
             sn, di, n = coverage_session(rep, a["seed"], ss, thorough)
+        elif kind == "inflight":
+            sn, di, n = inflight_session(rep, a["seed"], ss, 0.4 if ss is None else 0.2 + (ss % 5) * 0.2)
         else:
             sn, di, n = stress_session(rep, a["seed"], ss, 12 if thorough else 5)
         seen |= sn; distinct |= di; nev += n
@@ -402,8 +487,9 @@ def run_c28(a, rep):
     rep.d["extra"]["exhaustive"] = False
     for p in sorted(distinct, key=len, reverse=True)[:4]:
         rep.sample({"observed_task_program": p})
-    rep.d["notes"].append("not modelled: std::sync::Mutex sections (never held across an await), awaiting channels / client "
-                          "responses while holding a lock (create_progress_task awaits the client under analysis.write with a 5 s timeout)")
+    rep.d["notes"].append("awaits under a guard are listed by the extractor and must be allowed (time-bounded or ordered); the H4 hook "
+                          "cannot log non-lock awaits (they do not go through the lock wrappers), so that table is validated by the "
+                          "in-flight watchdog session only; std::sync::Mutex sections are not modelled")
 
 
 # ------------------------------------------------------------------------------------------------ main
